@@ -58,6 +58,7 @@ func Read(r parser.ReadSeekSizer) (Info, error) {
 
 	res := make(Info)
 
+	var totalPairs int64
 	pos := p.Pos()
 	for i := 0; i < int(nTables); i++ {
 		err := p.SeekPos(pos)
@@ -94,6 +95,15 @@ func Read(r parser.ReadSeekSizer) (Info, error) {
 		err = p.Discard(6) // skip searchRange, entrySelector and rangeShift
 		if err != nil {
 			return nil, err
+		}
+		// Subtables which do not overlap cannot contain more pairs than fit
+		// into the file.  This bounds the total amount of work.
+		totalPairs += int64(nPairs)
+		if 6*totalPairs > p.Size() {
+			return nil, &parser.InvalidFontError{
+				SubSystem: "sfnt/kern",
+				Reason:    "overlapping kern subtables",
+			}
 		}
 		for j := 0; j < int(nPairs); j++ {
 			buf, err := p.ReadBytes(6)
